@@ -12,11 +12,24 @@ pub fn exec(op: &str, args: &[&str], out: &mut Out) -> Option<()> {
     let p = Pointer::parse(&ps).ok()?;
     let q = Pointer::parse(&qs).ok()?;
     let sw = no_panic(|| p.starts_with(q));
-    let sp = p.strip_prefix(q);
-    let ew = p.ends_with(q);
-    let ss = p.strip_suffix(q);
-    let ix = p.intersection(q);
-    let cc = p.concat(q);
+    // none of these may panic (C13: they answer false / None for a non-prefix / non-suffix)
+    let all = no_panic(|| (p.strip_prefix(q), p.ends_with(q), p.strip_suffix(q), p.intersection(q), p.concat(q)));
+    let Some((sp, ew, ss, ix, cc)) = all else {
+        let which: Vec<&str> = [
+            ("strip_prefix", no_panic(|| p.strip_prefix(q).is_some()).is_none()),
+            ("ends_with", no_panic(|| p.ends_with(q)).is_none()),
+            ("strip_suffix", no_panic(|| p.strip_suffix(q).is_some()).is_none()),
+            ("intersection", no_panic(|| p.intersection(q).len()).is_none()),
+            ("concat", no_panic(|| p.concat(q).len()).is_none()),
+        ]
+        .iter()
+        .filter(|(_, panicked)| *panicked)
+        .map(|(n, _)| *n)
+        .collect();
+        out.fail("C13", format!("{} panicked on p = {ps:?}, q = {qs:?}", which.join(" / ")));
+        out.observed = "panic".into();
+        return Some(());
+    };
     out.observed = format!(
         "sw{} sp{} ew{} ss{} ix{} cc {}",
         opt(sw, |b| (b as u8).to_string()).replace('-', "panic"),
@@ -65,6 +78,32 @@ pub fn exec(op: &str, args: &[&str], out: &mut Out) -> Option<()> {
     if ps == qs {
         out.check(ix.as_str() == ps, "C13", || "intersection is not idempotent".into());
     }
+    // aliasing must not matter: the same q, taken as a view of p's own buffer (same start address / same end), gives the same answers
+    let mut views: Vec<(&str, &Pointer)> = vec![];
+    if ps.starts_with(qs.as_str()) {
+        if let Ok(qa) = Pointer::parse(&ps[..qs.len()]) {
+            views.push(("a front view of p's buffer", qa));
+        }
+    }
+    if ps.ends_with(qs.as_str()) && ps.is_char_boundary(ps.len() - qs.len()) {
+        if let Ok(qb) = Pointer::parse(&ps[ps.len() - qs.len()..]) {
+            views.push(("a back view of p's buffer", qb));
+        }
+    }
+    for (what, qv) in views {
+        let same = no_panic(|| {
+            p.starts_with(qv) == p.starts_with(q)
+                && p.strip_prefix(qv).map(|r| r.as_str()) == p.strip_prefix(q).map(|r| r.as_str())
+                && p.ends_with(qv) == p.ends_with(q)
+                && p.strip_suffix(qv).map(|r| r.as_str()) == p.strip_suffix(q).map(|r| r.as_str())
+                && p.intersection(qv).as_str() == p.intersection(q).as_str()
+                && qv.intersection(p).as_str() == q.intersection(p).as_str()
+                && (p == qv) == (p == q)
+                && p.cmp(qv) == p.cmp(q)
+                && p.concat(qv) == p.concat(q)
+        });
+        out.check(same == Some(true), "C13,C17,C01", || format!("with q = {qs:?} given as {what} (p = {ps:?}) the prefix / suffix / intersection / comparison results differ from those for an equal q stored elsewhere"));
+    }
     // concat: list concatenation
     let mut l: Vec<&str> = tp.clone();
     l.extend(&tq);
@@ -104,6 +143,17 @@ pub fn gen(tier: &str, rng: &mut Rng, emit: &mut dyn FnMut(String)) {
         }
         emit(format!("pfx {} {}", hex(a.as_bytes()), hex(b"")));
         emit(format!("pfx {} {}", hex(b.as_bytes()), hex(b"/x")));
+    }
+    // two pointers byte-identical for exactly a block of 2^k bytes, then '/' in one and a token byte in the other
+    for k in 10..=17u32 {
+        let block = 1usize << k;
+        let head: String = (0..block / 8).map(|_| "/abcdefg").collect();
+        let p = format!("{head}/tail");
+        let q = format!("{head}x/tail");
+        let r = format!("{head}/tail/more");
+        for (a, b) in [(&p, &q), (&q, &p), (&p, &r), (&r, &p), (&q, &q), (&p, &head), (&q, &head)] {
+            emit(format!("pfx {} {}", hex(a.as_bytes()), hex(b.as_bytes())));
+        }
     }
     for n in MANY {
         let p: String = (0..n).map(|i| format!("/t{}", i % 7)).collect();
